@@ -133,7 +133,7 @@ def generate(ctx, mirror):
         "c13_gen_bfs.cfg": cfg(mirror, maxwin=18000 if thorough else 14400, maxslices=4 if thorough else 3,
                                maxcells=10 if thorough else 7, inv="EmitCase", view="")})
     all_bfs = [v[0] for v in prints(bfs, "CASE")]
-    add(sample(all_bfs, 120000 if thorough else 2000))
+    add(sample(all_bfs, 60000 if thorough else 2000))
     # BFS: sessions with a follow-up query through the cache; ends on / next to slice boundaries only
     # (quantum "slice"), where a cached last slice and the slices of the follow-up query interact
     bfs2 = ctx.tlc("RangeSlice", "c13_gen_sess.cfg", tag="gen-sess", timeout=3000, workers=w, heap=HEAP, files={
@@ -142,16 +142,16 @@ def generate(ctx, mirror):
                                 quantum="slice", order="all" if thorough else "fwdrev",
                                 deltas=[0, 2, 3, 4, 6] if thorough else [0, 2, 3, 4], inv="EmitCase", view="")})
     all_sess = [v[0] for v in prints(bfs2, "CASE") if len(v[0]["queries"]) > 1]
-    add(sample(all_sess, 60000 if thorough else 3000))
+    add(sample(all_sess, 30000 if thorough else 3000))
     # BFS: two series, one sample per slice, every arrival order (the merge fix-point runs per series)
     bfs3 = ctx.tlc("RangeSlice", "c13_gen_two.cfg", tag="gen-two", timeout=3000, workers=w, heap=HEAP, files={
         "c13_gen_two.cfg": cfg(mirror, steps=[7200] if not thorough else [3600, 7200], ns=2,
                                maxwin=28800 if thorough else 21600, maxslices=5 if thorough else 4,
                                maxcells=6 if thorough else 4, quantum="slice", inv="EmitCase", view="")})
     all_two = [v[0] for v in prints(bfs3, "CASE")]
-    add(sample(all_two, 40000 if thorough else 1200))
+    add(sample(all_two, 20000 if thorough else 1200))
     # simulation: wide vocabulary
-    per_worker = max(1, (40000 if thorough else 1600) // w)
+    per_worker = max(1, (20000 if thorough else 1600) // w)
     sim = ctx.tlc("RangeSlice", "c13_gen_sim.cfg", tag="gen-sim", timeout=3000, simulate=per_worker, depth=400,
                   workers=w, heap=HEAP, files={
                       "c13_gen_sim.cfg": cfg(mirror, steps=STEPS_SIM, ns=2, celldiv=2, maxwin=28800, maxslices=7,
